@@ -2,7 +2,7 @@
 
 from __future__ import annotations
 
-from ..comp import CompScenario
+from ..comp import CompScenario, layout_from_spec, spec_leaves, spread, rand_leaf, rand_layout_spec
 from ..propbase import PropBase, make_plan, phase_at
 
 PORTS = ("write", "read", "peek", "clear")
@@ -13,8 +13,11 @@ class Scen(CompScenario):
         from transactron.lib.stack import Stack
 
         c = self.cfg
-        layout = [(n, w) for n, w in c["layout"]]
-        self.fields = [n for n, _ in layout]
+        # the layout as the list form or as a StructLayout object (both are documented method layouts)
+        layout = layout_from_spec(c["layout"], bool(c.get("layout_obj")))
+        self.leafs = spec_leaves(c["layout"])  # (path, width, signed) of every scalar leaf; the first is the tag
+        self.fields = [path for path, _, _ in self.leafs]
+        self.mul = c.get("tagmul", 1)
         self.depth = c["depth"]
         self.dut = Stack(layout, self.depth)
         self.top.add("dut", self.dut)
@@ -62,11 +65,11 @@ class Scen(CompScenario):
         if self.cfg.get("peek2"):
             stim["peek2.en"] = int(rng.random() < max(pp, 0.5))
         self.twin_stim(rng, stim)
+        # unique tags in the first leaf, spread over its whole width (counter * odd constant modulo 2**width);
+        # noise in the others (full width, with all-zeros / all-ones / sign-bit-only patterns mixed in)
         self.tag += 1
-        for k, f in enumerate(self.fields):
-            name = f"write.i.{f}"
-            w = self.widths[name]
-            stim[name] = (self.tag if k == 0 else rng.getrandbits(w)) & ((1 << w) - 1)
+        for k, (f, w, sgn) in enumerate(self.leafs):
+            stim[f"write.i.{f}"] = spread(self.tag, self.mul, w, sgn) if k == 0 else rand_leaf(rng, w, sgn)
         return stim
 
     # ---- oracle -----------------------------------------------------------------------------
@@ -100,6 +103,7 @@ class Scen(CompScenario):
                             f"{p} returned {got}, top of stack is {st[-1]} (level {level}/{depth})", port=p)
                 if st[-1][0] in self.replaced:
                     self.hit("returned_value_pushed_in_read_write_cycle")
+                self.data_cov(got)
         w, r, pk, c = done["write"], done["read"], done["peek"], done["clear"]
         # fault kinds / boundary events that fired
         if stim.get("write.en") and not notfull:
@@ -145,6 +149,22 @@ class Scen(CompScenario):
             self.replaced.clear()
         self.was_full = len(st) == depth
 
+    def data_cov(self, got):
+        """What kind of value came back intact."""
+        for (f, w, sgn), v in zip(self.leafs, got):
+            if w >= 10 and (v if v >= 0 else v + (1 << w)) >> 9:
+                self.hit("returned_value_with_bits_above_9")
+            if w > 32 and (v if v >= 0 else v + (1 << w)) >> 32:
+                self.hit("returned_value_with_bits_above_32")
+            if sgn and v < 0:
+                self.hit("returned_negative_signed_field")
+            if w == 1 and v:
+                self.hit("returned_one_bit_field_set")
+        if len(self.leafs) >= 3:
+            self.hit("returned_struct_of_3_or_more_leaves")
+        if any("." in f for f in self.fields):
+            self.hit("returned_nested_or_array_field")
+
 
 class Prop(PropBase):
     ID = "C16"
@@ -154,12 +174,16 @@ class Prop(PropBase):
     }
     rule = ("one run = one (depth, layout) configuration driven for 80-240 cycles by a seeded phase plan (random / fill / "
             "drain / ping-pong / swap (read+write replacing the top) / flush / idle), any subset of read/peek/write/clear "
-            "per cycle, unique tags; distinct = distinct (configuration, stack level, executed call set); non-trivial = a "
+            "per cycle; layouts: the tag alone or tag + small aux field, or (55 %) wide (up to 64 bit) / signed / 1-bit / "
+            "3-4-field / nested-struct / array fields, given as a list or as a StructLayout object; unique tags = counter * "
+            "per-run odd constant modulo 2**width (all bits used); distinct = distinct (configuration, stack level, executed call set); non-trivial = a "
             "call executed at level 0, 1, depth-1 or depth, or clear ran")
     expected_cov = ["write_refused_at_full", "write_refused_at_full_while_read_ran", "read_refused_at_empty",
                     "read_and_write_same_cycle", "rw_at_level_1", "rw_at_depth_minus_1",
                     "returned_value_pushed_in_read_write_cycle", "read_and_peek_same_cycle", "clear_with_write",
-                    "clear_with_read", "clear_at_full", "became_full", "became_empty", "read_right_after_full", "two_peek_callers_served"]
+                    "clear_with_read", "clear_at_full", "became_full", "became_empty", "read_right_after_full", "two_peek_callers_served",
+                    "returned_value_with_bits_above_9", "returned_value_with_bits_above_32", "returned_negative_signed_field",
+                    "returned_one_bit_field_set", "returned_struct_of_3_or_more_leaves", "returned_nested_or_array_field"]
     real = ["transactron.lib.stack.Stack", "transactron.lib.adapters.AdapterTrans", "TransactionManager + scheduler",
             "amaranth.lib.memory.Memory", "amaranth pysim"]
     stubs = ["cycle driver (stimulus)", "list reference model"]
@@ -170,14 +194,15 @@ class Prop(PropBase):
     def gen_config(self, rng, tier, idx):
         big = tier == "thorough"
         depth = rng.choice([1, 2, 3, 4, 5, 6, 7, 8, 9] + ([12, 15, 16, 17] if big else []))
-        layout = [["tag", rng.choice([10, 12, 16])]]
-        if rng.random() < 0.4:
-            layout.append(["aux", rng.choice([1, 3, 8])])
+        layout = rand_layout_spec(rng, rich=rng.random() < 0.55)
         cycles = rng.randint(80, 400 if big else 240)
         kinds = ["random", "random", "fill", "drain", "pingpong", "swap", "flush", "flush", "idle"]
-        return {"depth": depth, "layout": layout, "cycles": cycles, "sched": rng.choice(["eager", "eager", "rr"]),
-                "peek2": int(rng.random() < 0.35), "twin": int(rng.random() < 0.3),
-                "plan": make_plan(rng, cycles, kinds, min_len=4, max_len=32)}
+        cfg = {"depth": depth, "layout": layout, "cycles": cycles, "sched": rng.choice(["eager", "eager", "rr"]),
+               "peek2": int(rng.random() < 0.35), "twin": int(rng.random() < 0.3),
+               "plan": make_plan(rng, cycles, kinds, min_len=4, max_len=32)}
+        cfg["tagmul"] = rng.getrandbits(64) | 1  # tag = counter * odd constant modulo 2**width: unique, all bits used
+        cfg["layout_obj"] = int(rng.random() < 0.25)
+        return cfg
 
     def make(self, cfg):
         return Scen(cfg)
@@ -186,7 +211,7 @@ class Prop(PropBase):
         return {"port": (viol.get("info") or {}).get("port")}
 
     def cfg_signature(self, cfg):
-        return [cfg["depth"], cfg["layout"], cfg["sched"], cfg.get("peek2", 0), cfg.get("twin", 0)]
+        return [cfg["depth"], cfg["layout"], cfg["sched"], cfg.get("peek2", 0), cfg.get("twin", 0), cfg.get("layout_obj", 0)]
 
     def shrink_cfg(self, cfg):
         for d in (1, 2, cfg["depth"] // 2, cfg["depth"] - 1):
@@ -197,6 +222,10 @@ class Prop(PropBase):
         if len(cfg["layout"]) > 1:
             c = dict(cfg)
             c["layout"] = cfg["layout"][:1]
+            yield c
+        if cfg.get("layout_obj"):
+            c = dict(cfg)
+            c["layout_obj"] = 0
             yield c
         if cfg["sched"] != "eager":
             c = dict(cfg)
